@@ -129,7 +129,7 @@ var c01Names = []string{"id", "x", "y", "name", "p1", "ver", "a", "b", "item-id"
 var c01CompSegs = []string{"{a}.{b}", "{name}--{ver}", "{a}.json", "{x}_{y}_{z}", "{a}-{b}", "{id}.tar.gz", "{a}::{b}", "{p1}@{id}"}
 var c01Values = []string{"x", "abc", "b", "a", "ab", "items", "1", "%2F", "a%2Fb", "%2f", "%25", "%2525", "a%25", ":", ":id", "a:b", "*", "*w", "a*", "#", "%23", "a%23b", ";", "a;b=c", "=", "a=b", "=:",
 	".", "..", "...", "%2E%2E", "%2e", ".a", "\xc3\xa9", "%C3%A9", "%20", "a%20b", "a+b", "~", "$", ",", "%00", "%7Bx%7D", "{x}", "{id}", "x.y", "x.y.z", ".y", "x.", "abc--1", "abc-1", "--", "a.json", ".json", "a.jsonl",
-	"x_y_z", "x_y", "v.tar.gz", "a::b", "a@b", "%3A", "%2A", "%", "%zz"}
+												"x_y_z", "x_y", "v.tar.gz", "a::b", "a@b", "%3A", "%2A", "%", "%zz"}
 var c01BadCompSegs = []string{"{a}x{b", "{a}x}b{c}", "{a}}{b}", "{a}}", "{x}-{y", "{a}.}{b}"} // unbalanced braces after a placeholder
 var c01PlaceholderRe = regexp.MustCompile(`\{([^{}/]+)\}`)
 
